@@ -27,6 +27,7 @@ type Plan struct {
 	RevSlow  bool   `json:"rev_slow,omitempty"`  // additionally reverse-call a client-side handler that blocks until released
 	RevAlias bool   `json:"rev_alias,omitempty"` // additionally reverse-call through a tagged field that resolves via a client-side alias
 	ReactMs  int    `json:"react_ms,omitempty"`  // time the handler keeps running after its ctx was cancelled
+	Junk     string `json:"junk,omitempty"`      // ignored by the handler; inflates the request (longer decode window)
 
 	// subscriptions
 	N         int  `json:"n,omitempty"`          // values to send
@@ -359,6 +360,22 @@ func subGeneric[T any](a *TokAPI, ctx context.Context, tok string, plan Plan, mk
 	if plan.Panic != "" {
 		defer a.W.leave(tok)
 		panic("boom-" + tok)
+	}
+	if plan.Gate {
+		// the subscribing call itself stays pending until released
+		var done <-chan struct{}
+		if plan.WatchCtx {
+			done = ctx.Done()
+		}
+		select {
+		case <-s.gate:
+		case <-done:
+			a.W.leave(tok)
+			return nil, ctx.Err()
+		case <-a.W.quit:
+			a.W.leave(tok)
+			return nil, errors.New("world torn down")
+		}
 	}
 	early := plan.Early
 	if early > plan.N {
